@@ -1,20 +1,29 @@
 #!/bin/sh
-# tools/confirmseeded.sh <seeded-id> <pkgdir> <go test args...>
-# Confirms a seeded change: with the patch the existing suite passes and the demo fails;
-# without it the demo passes. Uses a scratch worktree, removed afterwards.
+# tools/confirmseeded.sh <seeded-id> [<pkgdir> <go test args...>]
+# Confirms a seeded change in a scratch worktree of /repo HEAD (removed afterwards):
+# the demo passes on the clean tree; with the patch the library builds, the existing suite
+# passes and the demo fails. pkgdir/test args default to meta.json's demo_pkg/demo_run
+# (tag seeddemo).
 set -u
 export GOFLAGS=-mod=mod GOPROXY=off GOSUMDB=off GOTOOLCHAIN=local
-id=$1; pkg=$2; shift 2
-d=/verif/seeded/$id; wt=/tmp/seedconfirm/$id
+id=$1; d=/verif/seeded/$id
+if [ $# -ge 2 ]; then pkg=$2; shift 2; else
+  pkg=$(python3 -c "import json;print(json.load(open('$d/meta.json'))['demo_pkg'])")
+  run=$(python3 -c "import json;print(json.load(open('$d/meta.json'))['demo_run'])")
+  set -- -tags seeddemo -run "$run"
+fi
+[ "$pkg" = "." ] && pkg=""
+wt=/tmp/seedconfirm/$id; mkdir -p /tmp/seedconfirm
 git -C /repo worktree remove --force $wt 2>/dev/null; rm -rf $wt
 git -C /repo worktree add -q --detach $wt HEAD || exit 2
 cp $d/demo_test.go $wt/$pkg/zz_demo_test.go
-( cd $wt && go test -vet=off -count=1 "$@" ./$pkg/ >/dev/null 2>&1 ); clean=$?
-git -C $wt apply $d/patch.diff || { echo "$id: patch does not apply"; exit 2; }
+( cd $wt && timeout 600 go test -vet=off -count=1 "$@" ./$pkg/ >/tmp/seedconfirm/$id.clean 2>&1 ); clean=$?
+git -C $wt apply $d/patch.diff || { echo "$id: patch does not apply"; git -C /repo worktree remove --force $wt; exit 2; }
 rm $wt/$pkg/zz_demo_test.go
-( cd $wt && go build ./... && go test -vet=off -count=1 ./... >/tmp/seedconfirm/$id.suite 2>&1 ); suite=$?
+( cd $wt && go build ./... && timeout 1200 go test -vet=off -count=1 ./... >/tmp/seedconfirm/$id.suite 2>&1 ); suite=$?
+if [ $suite != 0 ]; then ( cd $wt && timeout 1200 go test -vet=off -count=1 ./... >/tmp/seedconfirm/$id.suite 2>&1 ); suite=$?; fi
 cp $d/demo_test.go $wt/$pkg/zz_demo_test.go
-( cd $wt && go test -vet=off -count=1 "$@" ./$pkg/ >/dev/null 2>&1 ); mutated=$?
-git -C /repo worktree remove --force $wt; rm -rf $wt /tmp/seedconfirm/$id.suite
+( cd $wt && timeout 600 go test -vet=off -count=1 "$@" ./$pkg/ >/tmp/seedconfirm/$id.mut 2>&1 ); mutated=$?
+git -C /repo worktree remove --force $wt; rm -rf $wt
 echo "$id: demo on clean tree rc=$clean (want 0); existing suite with patch rc=$suite (want 0); demo with patch rc=$mutated (want !=0)"
 [ $clean = 0 ] && [ $suite = 0 ] && [ $mutated != 0 ]
